@@ -58,16 +58,7 @@ func (_ *StorageSmartContract) shutdownBlobber(
 
 			return blobber, sp, nil
 		},
-		func(req provider.ProviderRequest) error {
-			stakePool, err := getStakePool(spenum.Blobber, req.ID, balances)
-			if err != nil {
-				return err
-			}
-
-			stakePool.TotalOffers = 0
-
-			return stakePool.Save(spenum.Blobber, req.ID, balances)
-		},
+		nil,
 		balances,
 	)
 
@@ -163,16 +154,7 @@ func (_ *StorageSmartContract) shutdownValidator(
 			}
 			return validator, sp, nil
 		},
-		func(req provider.ProviderRequest) error {
-			stakePool, err := getStakePool(spenum.Blobber, req.ID, balances)
-			if err != nil {
-				return err
-			}
-
-			stakePool.TotalOffers = 0
-
-			return stakePool.Save(spenum.Blobber, req.ID, balances)
-		},
+		nil,
 		balances,
 	)
 
